@@ -413,8 +413,12 @@ def mveq(exp, got, rtol=1e-12, sym_rtol=1e-9, regs_in_lists_raw=False):
                     continue
                 try:
                     y = complex(got.func(*[env[("q", n)] for n in got.regrefs]))
+                except (OverflowError, ZeroDivisionError):
+                    continue        # an intermediate result leaves the double range at this point: not a point to compare at
                 except Exception:  # noqa
                     return False
+                if not cmath.isfinite(y) and abs(x) > 1e150:
+                    continue
                 if not close(x, y, sym_rtol, 1e-12):
                     return False
             return True
